@@ -69,6 +69,13 @@ fn query_plan(ws: &Workspace, v: usize) -> Vec<(u32, u32, Q)> {
         plan.push((fi as u32, f, Q::Refs));
         plan.push((fi as u32, 0, Q::SemTokensFull));
         plan.push((fi as u32, 0, Q::Diagnostics));
+        // every other entry point of the analysis as well
+        plan.push((fi as u32, 0, Q::SemTokensRange(c.saturating_sub(3), (t.len() as u32).min(k + 40))));
+        plan.push((fi as u32, c + 12, Q::SigHelp));
+        plan.push((fi as u32, c, Q::PrepareRename));
+        plan.push((fi as u32, c, Q::Highlight));
+        plan.push((fi as u32, k, Q::Completion(Some('.'))));
+        plan.push((fi as u32, 0, Q::SyntaxTree));
     }
     plan
 }
@@ -283,7 +290,7 @@ impl Property for C12 {
         "C12"
     }
     fn rule(&self) -> String {
-        "cases: proptest-generated schedules (the stream chooses workspace size 13/31/51 files, 2-5 versions, 1-4 reader threads per version, where each reader starts in its query plan, its yield frequency, and how long the writer waits before applying the next version): one writer thread owns the AnalysisHost and applies version v+1 (every file changes; names and literal types embed v) while real OS reader threads loop over ~43 queries (incl. workspace-wide references/rename, hover, goto, completion, semantic tokens, diagnostics) on snapshots of version v. Readers may only stop after they observe Cancelled or after apply_change has returned, so apply_change can only return by cancelling them. Oracle: every reader result is Cancelled or exactly the single-threaded precomputed answer of its snapshot's own version (never another version's, never a truncated set, never a panic); apply_change returns (in-worker watchdog 45 s, confirmed by replay); a snapshot taken after the last change answers for the last version. evaluations = reader query results checked. Non-trivial = schedule in which >= 1 reader was cancelled mid-flight and >= 1 reader completed an answer; distinct by schedule hash.".into()
+        "cases: proptest-generated schedules (the stream chooses workspace size 13/31/51 files, 2-5 versions, 1-4 reader threads per version, where each reader starts in its query plan, its yield frequency, and how long the writer waits before applying the next version): one writer thread owns the AnalysisHost and applies version v+1 (every file changes; names and literal types embed v) while real OS reader threads loop over ~60 queries through every entry point of the analysis (workspace-wide references/rename, hover, goto, highlight, completion, signature help, prepare-rename, semantic tokens for the file and for a range, diagnostics, syntax tree) on snapshots of version v. Readers may only stop after they observe Cancelled or after apply_change has returned, so apply_change can only return by cancelling them. Oracle: every reader result is Cancelled or exactly the single-threaded precomputed answer of its snapshot's own version (never another version's, never a truncated set, never a panic); apply_change returns (in-worker watchdog 45 s, confirmed by replay); a snapshot taken after the last change answers for the last version. evaluations = reader query results checked. Non-trivial = schedule in which >= 1 reader was cancelled mid-flight and >= 1 reader completed an answer; distinct by schedule hash.".into()
     }
     fn assumptions(&self) -> Vec<String> {
         vec![
